@@ -30,9 +30,9 @@ func c16SMTP(inner error, info *c16Info, k int) error {
 	code := nondetInt(fmt.Sprintf("code%d", k), 400, 599)
 	verifAssume(code/100 == 4 || code/100 == 5)
 	temp := code/100 == 4
-	if info.classified {
-		verifAssume(info.temporary == temp)
-	}
+	// an SMTP-annotated layer outside anything else decides: its Temporary()
+	// is found first and its fields override inner ones, so no consistency
+	// assumption is needed here (inner layers may be of the other class)
 	info.classified, info.temporary, info.annotated = true, temp, true
 	ec := exterrors.EnhancedCode{code / 100, nondetInt(fmt.Sprintf("ec1_%d", k), 0, 7), nondetInt(fmt.Sprintf("ec2_%d", k), 0, 30)}
 	if nondetBool(fmt.Sprintf("ecUnset%d", k)) {
